@@ -456,7 +456,11 @@ class LiveMedia(MediaRequestBase):
                 seg_num, first, last)
             raise err
 
-        if seg_num < first or seg_num > last:
+        abs_seg_num = seg_num
+        if mode == 'live' and seg_time is not None:
+            # live $Time$ based requests count segments from zero
+            abs_seg_num += representation.start_number
+        if abs_seg_num < first or abs_seg_num > last:
             logging.info(
                 '%s: Request for fragment %d that is not available (%d -> %d)',
                 timing.now, seg_num, first, last)
